@@ -462,8 +462,13 @@ func runL5(args []string) {
 	dist := map[string]int{}
 
 	process := func(h []l5Op) {
-		obs := runL5Case(h)
+		var obs *l5Obs
 		hb, _ := json.Marshal(h)
+		if withWatchdog(60*time.Second, func() { obs = runL5Case(h) }) {
+			rep.countCase(string(hb), true)
+			rep.addCrash(Finding{Case: map[string]any{"history": h, "replay": string(hb)}, Kind: "crash", Detail: "the history did not finish within 60 s (deadlock)"})
+			return
+		}
 		closes, prepares := 0, 0
 		for _, sg := range obs.Segs {
 			closes += len(sg.Closed)
@@ -522,8 +527,14 @@ func runL5(args []string) {
 			cr := r.Fork()
 			threads := 2 + cr.Intn(5)
 			per := 5 + cr.Intn(20)
-			obs := runL5Conc(cr, threads, per)
+			var obs *l5ConcObs
 			key := fmt.Sprint("conc", *seed, i)
+			if withWatchdog(90*time.Second, func() { obs = runL5Conc(cr, threads, per) }) {
+				rep.countCase(key, true)
+				rep.addCrash(Finding{Case: map[string]any{"concurrent": map[string]any{"threads": threads, "perThread": per, "index": i}}, Kind: "crash",
+					Detail: "the concurrent run did not finish within 90 s (deadlock)"})
+				continue
+			}
 			rep.countCase(key, obs.Evictions > 1)
 			dist["concurrent-runs"]++
 			dist["concurrent-calls"] += obs.Calls
